@@ -18,7 +18,10 @@ L2: every public operation (ndef read, ndef write, presence check, format,
     target are compared.  Sessions of two and three operations on the same tag
     object (first one failing with each reason code, the next one meeting a
     transient fault) are compared the same way for the Type 2 and Type 4
-    families.
+    families.  Histories on one FeliCa Lite / Lite-S tag object (op1 fault-free; op2 failing at command k with a
+    burst of each class; op3 on a healthy link) are compared operation by operation with Model/RetryObj.lean,
+    including the object state (session key, _authenticated, installed NDEF service accessors, NDEF cache,
+    polled system code); histories of the same shape on every other class go through the session comparison.
 L3: the property stated on the real runs alone: outcome is a documented
     value or a TagCommandError whose general reason code matches the last
     failure; per primitive call at most the budgeted number of exchanges and
@@ -61,6 +64,12 @@ THEOREMS = [
     "NfcVerif.C16.presence_check_not_retried",
     "NfcVerif.C16.lost_answer_write_twice",
     "NfcVerif.C16.once_refused_on_retry",
+    "NfcVerif.C16.object_session_outcomes_documented",
+    "NfcVerif.C16.object_session_keeps_invariant",
+    "NfcVerif.C16.object_session_write_not_duplicated",
+    "NfcVerif.C16.failed_authenticate_resets_session",
+    "NfcVerif.C16.plain_ok_of_table",
+    "NfcVerif.C16.late_reset_counterexample",
 ]
 
 BASE_OPS = ["ndef", "write", "present", "format", "formatw", "protect", "protectpw", "auth", "dump"]
@@ -68,7 +77,8 @@ DOCUMENTED = {"ndef": {"ndef", "none"}, "write": {"unit", "none"}, "write2": {"u
               "format": {"true", "false", "none"}, "formatw": {"true", "false", "none"},
               "protect": {"true", "false", "none"}, "protectpw": {"true", "false", "none"},
               "protectrd": {"true", "false", "none"},
-              "auth": {"true", "false", "none"}, "auth0": {"true", "false", "none"}, "dump": {"list"}, "sig": {"data"}}
+              "auth": {"true", "false", "none"}, "auth0": {"true", "false", "none"}, "dump": {"list"}, "sig": {"data"},
+              "changed": {"data", "none"}}
 FOOTER = {"ulc": 4, "ntag203": 2, "ntag213": 5, "ntag210": 4, "ulev1": 4, "nt3h": 7}
 PASSWORD = b"0123456789abcdef"
 NEWDATA = b"\xd1\x01\x03\x54\x02\x65\x6e"
@@ -207,6 +217,12 @@ def perform(tag, op):
             return None
         ndef.octets = BIGDATA if _big[0] else (NEWDATA if op == "write" else NEWDATA2)
         return "unit"
+    if op == "changed":
+        ndef = tag.ndef
+        if ndef is None:
+            return None
+        r = ndef.has_changed
+        return "data" if (r is True or r is False) else ("other:" + type(r).__name__)
     if op == "present":
         return tag.is_present
     if op == "format":
@@ -327,9 +343,20 @@ class _MemoDes(object):
     and Ultralight C operations; challenges are fixed (`fixed_random`), so the same blocks recur all the time"""
 
     def __init__(self, key, mode=0, iv=None, *a, **kw):
-        import pyDes
         self._args = (bytes(key), mode, bytes(iv) if iv is not None else None)
-        self._real = pyDes.triple_des(key, mode, iv, *a, **kw)
+        self._ctor = (key, mode, iv, a, kw)
+        self._obj = None
+        if a or kw:
+            self._real          # unusual arguments: let pyDes judge them right away
+
+    @property
+    def _real(self):
+        # the key schedule is only computed when a result is not remembered yet
+        if self._obj is None:
+            import pyDes
+            key, mode, iv, a, kw = self._ctor
+            self._obj = pyDes.triple_des(key, mode, iv, *a, **kw)
+        return self._obj
 
     def _do(self, what, data):
         k = (what,) + self._args + (bytes(data),)
@@ -447,7 +474,7 @@ def execute(kind, op, script, prepare=None, senses="", pre_ndef=False):
                 "stale": list(air.stale), "sensed": air.sensed, "wrong": air.wrong_data}
 
 
-def execute_session(kind, ops, scripts, senses):
+def execute_session(kind, ops, scripts, senses, probe=None):
     """several operations on one tag object; scripts[i] / senses[i] are armed for operation i.
     -> list of per-operation dicts (the fault letters and sense results really consumed are in 'used' / 'sensed')"""
     from sims import retry_sims as rs
@@ -472,6 +499,8 @@ def execute_session(kind, ops, scripts, senses):
                         "stale": list(air.stale[stale_lo:]), "wrong": air.wrong_data,
                         "errs": [e[1] for e in air.log[lo:] if e != "|" and e[0] == "!"],
                         "frames": [e for e in air.log[lo:] if e != "|" and e[0] not in "!?"]})
+            if probe is not None:
+                res[-1]["obj"] = probe(tag)
         return res, sim_memory(sim), (tag._dep.n_retry_nak if family(kind) == "t4" else 0)
 
 
@@ -747,7 +776,12 @@ def finding_key(kind, op, name, script, invs):
     fam = family(kind)
     toks = [e[0] for inv in invs for e in inv if e[0] != "!"]
     if name == "RuntimeError" and fam in ("t1", "t2") and any(c in script for c in "ocOC"):
-        return "t1t2-unknown-commerror-runtimeerror"
+        # the open finding is exactly: transceive() has used up its attempts and the last one failed with a
+        # CommunicationError class it does not know.  A RuntimeError from anywhere else gets its own key.
+        calls = [[e for e in inv if e[0] not in "!?"] for inv in invs]
+        calls = [c for c in calls if c]
+        if calls and calls[-1][-1][1] in "ocOC" and all(e[1] not in "a0123" for e in calls[-1]):
+            return "t1t2-unknown-commerror-runtimeerror"
     if name == "UnboundLocalError" and fam == "t3" and any(c in script for c in "ocOC"):
         return "t3-unknown-commerror-unbound"
     if name in ("IndexError", "struct.error") and fam == "t3" and any(c in script for c in "0123"):
@@ -758,6 +792,9 @@ def finding_key(kind, op, name, script, invs):
         return "t2-sector-select-assert"
     if name in ("BrokenLinkError", "CommunicationError") and fam == "t4":
         return "t4-unknown-commerror-raw"
+    if name == "RuntimeError" and kind in ("lite", "lites") and op not in ("rdmac", "wrmac"):
+        # read_with_mac / write_with_mac reached through the NDEF accessors of the tag object without a session key
+        return "lite-ndef-access-without-session-key"
     if name == "AttributeError" and kind == "ulev1" and op in ("protect", "protectpw", "protectrd"):
         return "ulev1-protect-attributeerror"
     return "%s-%s-raises-%s" % (fam, op, name)
@@ -809,6 +846,16 @@ def lost_sector_select(invs):
     from here on tag and tag object disagree about the sector, the answers of the tag are those of another sector
     (inherent in the protocol; outside the model, whose command sequences are those of the fault-free run)"""
     return any(e[0] == "s2" and e[1] == "t" for inv in invs for e in inv if e[0] not in "!?")
+
+
+def garbled_sector_select(invs):
+    """the second SECTOR SELECT frame reached the tag (which has switched the sector) but the reader saw a transmission
+    or protocol error instead of the silence that acknowledges it: sector_select() raises - what it leaves in the tag
+    object decides whether the next command goes to the right sector"""
+    return any(e[0] == "s2" and e[1] in "XPOC" for inv in invs for e in inv if e[0] not in "!?")
+
+
+SECTOR_KEPT = "t2-sector-kept-after-garbled-select"
 
 
 def oracle_calls(ck, kind, op, invs, raws, nret, what, replay):
@@ -927,6 +974,8 @@ def session_ops(kind):
              "dump": (0, "none", 0, 0, 0), "rd4": (0, "none", 0, 0, 0), "wr5": (0, "none", 0, 1, 0)}
         if kind not in ("t2big", "nt3h"):
             d["rdend"] = (0, "none", 0, 0, 0)
+        else:
+            d["sel1"] = (0, "none", 0, 0, 0)      # several sectors: the selected sector is state of the tag object
         if kind in ("t2", "ul", "ulc"):
             d["format"] = (1, "false", 1, 1, 1)
         if kind in ("t2", "ul"):
@@ -1054,6 +1103,39 @@ def run_sessions(ck, model, cfg, rng, plans):
                             ck.fail(harness_key(e, fam, "session"), "%s session %s scripts %s sense results %s: %s: %s"
                                     % (kind, "+".join(ops), scripts, senses, type(e).__name__, e),
                                     {"kind": kind, "ops": list(ops), "scripts": scripts, "senses": senses})
+        # histories: op1 fault-free; op2 fails for good at command k (each class, command lost / answer lost);
+        # op3 on a healthy link - what op2 has left half-updated in the tag object (NDEF cache, Type 2 target and
+        # sector, ISO-DEP error memory, authentication) must not make op3 end in an undocumented way
+        stateful = [o for o in names if table[o][2] or table[o][3] or o in ("auth", "ndef", "sel1")]
+        pairs = [(a, b) for a in stateful for b in stateful]
+        npairs = (12 if ck.thorough else (2 if kind in ("t2big", "nt3h") else 6))
+        if len(pairs) > npairs:
+            pairs = rng.sample(pairs, npairs)
+        burst = pl_ndef.base["nret"] + 2 if fam == "t4" else BUDGET
+        hist = []
+        for a, b in pairs:
+            n2 = max(pl[b][0].n, pl[b][1].n)
+            if n2 == 0:
+                continue
+            for k in sorted(set([0, n2 - 1] + ([rng.randrange(n2)] if ck.thorough else []))):
+                for l in ("txpTXP" if ck.thorough else rng.sample("txpTXP", 3)):
+                    sc = "a" * k + l * (1 if (fam == "t4" and l in "pP") else burst)
+                    for c in rng.sample(names, min(len(names), 4 if ck.thorough else 2)):
+                        hist.append(((a, b, c), sc))
+        if "sel1" in table:
+            # always: the second SECTOR SELECT packet of op2 lost / garbled in every way, then a read and a write
+            for a in ("ndef", "write"):
+                for l in "txpTXP":
+                    for c in ("ndef", "write", "rd4"):
+                        hist.append(((a, "sel1", c), "a" + l * 3))
+        for ops, sc in hist:
+            scripts, senses = ["", sc, ""], ["", "", ""]
+            try:
+                one_session(ck, kind, ops, scripts, senses, table, pl, pl_ndef, ref_mem, cfg, reqs, reals, meta)
+            except Exception as e:  # noqa
+                ck.fail(harness_key(e, fam, "session"), "%s history %s scripts %s: %s: %s"
+                        % (kind, "+".join(ops), scripts, type(e).__name__, e),
+                        {"kind": kind, "ops": list(ops), "scripts": scripts, "senses": senses})
     replies = model.ask_many(reqs)
     bad = 0
     for (kind, ops, scripts, senses, ntied), req, real, rep in zip(meta, reqs, reals, replies):
@@ -1090,7 +1172,7 @@ def one_session(ck, kind, ops, scripts, senses, table, pl, pl_ndef, ref_mem, cfg
                     w + "returned the answer %s for command %s which the card has not executed"
                     % (r["stale"][0][1].hex() if r["stale"][0][1] else None, r["stale"][0][0].hex()), replay)
         if r["wrong"] is not None and wrong_data_counts(r["invs"]) and not any(table[o][3] for o in ops[:i]):
-            ck.fail("ndef-data-not-from-tag", w + "returns NDEF data %s.. which the tag does not hold" % r["wrong"][:12].hex(), replay)
+            ck.fail(SECTOR_KEPT if any(garbled_sector_select(x["invs"]) for x in res[:i + 1]) else "ndef-data-not-from-tag", w + "returns NDEF data %s.. which the tag does not hold" % r["wrong"][:12].hex(), replay)
         if fam == "t4" and fatal is not None and any(e[0] != "nak" or op != "present" for e in r["frames"]):
             ck.fail("t4-command-after-unrecoverable-error", w + "sent %s after an earlier operation had ended with the unrecoverable error %d"
                     % (" ".join("%s.%s" % e for e in r["frames"][:6]), fatal), replay)
@@ -1111,7 +1193,11 @@ def one_session(ck, kind, ops, scripts, senses, table, pl, pl_ndef, ref_mem, cfg
     if changing and all(op in ("write", "write2") for op, _ in changing) and not lost_s2:
         op, r = changing[-1]
         if r["out"] == "ok unit" and mem != ref_mem[op]:
-            ck.fail("write-reported-success-not-applied", what + "%s returned normally but the tag does not hold the data" % op, replay)
+            garbled = any(garbled_sector_select(x["invs"]) for x in res)
+            ck.fail(SECTOR_KEPT if garbled else "write-reported-success-not-applied",
+                    what + "%s returned normally but the tag does not hold the data%s" % (
+                        op, " (sector_select() had failed on a garbled acknowledge after the tag switched the sector; the tag "
+                        "object still assumes the old sector and the commands went to the other one)" if garbled else ""), replay)
     if kind not in SESSION_TIED or lost_s2:
         ck.case(("session", kind, ops, tuple(scripts), tuple(senses)), True, "session-oracle:%s" % fam)
         return
@@ -1142,6 +1228,194 @@ def one_session(ck, kind, ops, scripts, senses, table, pl, pl_ndef, ref_mem, cfg
              for r in res[:ntied]]
     reals.append(" || ".join(lines + ["end # " + res[ntied - 1]["flags"]]))
     meta.append((kind, ops, scripts, senses, ntied))
+
+
+# ------------------------------------------------------------------ histories: object state left by a failed operation
+# op1 (fault-free) ; op2 failing at command k with a burst of each class ; op3 on a healthy link - all on ONE tag object.
+# FeliCa Lite / Lite-S carry a session in the tag object (session key, _authenticated, which accessors the NDEF object
+# uses, NDEF cache, polled system code): their histories are compared with Model/RetryObj.lean operation by operation,
+# object state included; the histories of every other class go through the session machinery above.
+LITE_KINDS = ("lite", "lites")
+LITE_T12 = ["ndef", "changed", "auth0", "auth", "present", "rdsvc", "dump"]      # neither changes nor depends on changed content
+LITE_T3 = LITE_T12 + ["write", "wrsvc", "format", "protect"]                              # content changing: tied as last operation only
+LITE_ORACLE = LITE_T3 + ["formatw", "protectpw"]                       # judged by the oracle in every place
+
+
+def lite_obj(tag):
+    """what the tag object remembers, as the model prints it"""
+    import nfc.tag.tt3_sony as ts
+    rd = getattr(tag.read_from_ndef_service, "__func__", None) is ts.FelicaLite.read_with_mac
+    wr = getattr(tag.write_to_ndef_service, "__func__", None) is ts.FelicaLiteS.write_with_mac
+    return "o%d%d%d%d%d%d" % (tag._sk is not None and tag._iv is not None, bool(tag._authenticated), rd, wr,
+                              tag._ndef is not None, tag.sys == 0x12FC)
+
+
+def res_steps(kind, r, sim):
+    """steps_of for one operation of a session"""
+    return steps_of(kind, {"invs": r["invs"], "invraw": r["invraw"], "sim": sim})
+
+
+class LiteCmds(object):
+    """command sequences of the fault-free runs of one FeliCa Lite kind in the two reachable accessor states
+    (P: without MAC, M: after a successful authenticate), as the 19 phases of RetryObj.Cmds"""
+
+    def __init__(self, kind):
+        from sims import retry_sims as rs
+        sim = rs.build(kind)[0]
+
+        def run(ops):
+            res, _, _ = execute_session(kind, ops, [""] * len(ops), [""] * len(ops))
+            for op, r in zip(ops, res):
+                if not r["out"].startswith("ok "):
+                    raise RuntimeError("fault-free %s of %s ends with %s" % (op, "+".join(ops), r["out"]))
+            return [res_steps(kind, r, sim) for r in res]
+
+        def split_read(steps):
+            poll = [st for st in steps if st[0] == "po"]
+            rest = [st for st in steps if st[0] != "po"]
+            mc = rest[1:2] if len(rest) > 1 and rest[1][0] == "r136" else []
+            return poll, rest[:1], mc, rest[1 + len(mc):]
+
+        p = run(["ndef", "write"])
+        poll, rda, rdm, rdd = split_read(p[0])
+        _, wa, wm, ww = split_read(p[1])
+        m = run(["auth0", "ndef", "write"])
+        na = 2
+        poll2, mrda, mrdm, mrdd = split_read(m[1])
+        _, mwa, mwm, mww = split_read(m[2])
+        if poll != poll2 or len(poll) != 1:
+            raise RuntimeError("unexpected polling %s / %s" % (poll, poll2))
+        self.phases = [poll, rda, rdm, rdd, mrda, mrdm, mrdd, wa, wm, ww, mwa, mwm, mww,
+                       run(["rdsvc"])[0], run(["auth0", "rdsvc"])[1], run(["wrsvc"])[0], run(["auth0", "wrsvc"])[1],
+                       m[0][:na], m[0][na:]]
+        pr = run(["ndef", "protect"])[1]          # NDEF object cached: mc read, attribute block read and write, mc write
+        if [t for t, _ in pr] != ["r136", "r0", "w0", "w136"]:
+            raise RuntimeError("unexpected protect() commands %s" % pr)
+        self.phases += [pr[:1], pr[1:3], pr[3:]]
+        # the writes of Lite (no write with MAC) are the same in both states: the model picks by the installed accessor
+        if kind == "lite":
+            self.phases[12] = self.phases[9]
+            self.phases[16] = self.phases[15]
+        self.enc = enc(self.phases)
+        self.plain = {}
+        for op, clears in (("present", 0), ("dump", 0), ("format", 1)):
+            self.plain[op] = "plain/%d/%s" % (clears, Plan(kind, op).spec())
+
+    def token(self, op):
+        if op in self.plain:
+            return self.plain[op]
+        return {"auth0": "auth/1/1", "auth": "auth/0/0"}.get(op, op)
+
+
+def burst_scripts(n, rng, positions, bursts=(1, 2, 3, 4), letters="txpTXP", extra=True):
+    out = []
+    for k in positions:
+        for l in letters:
+            for b in bursts:
+                out.append("a" * k + l * b)
+        if extra:
+            out += ["a" * k + "ooo", "a" * k + "c", "a" * k + rng.choice("0123"), "a" * k + "tXp", "a" * k + "Txt"]
+    return out
+
+
+def run_lite_histories(ck, model, cfg, rng):
+    from sims import retry_sims as rs
+    reqs, reals, meta = [], [], []
+    state_fails = []      # white-box findings are reported after the application-visible ones
+    for kind in LITE_KINDS:
+        try:
+            lc = LiteCmds(kind)
+            sim0 = rs.build(kind)[0]
+        except Exception as e:  # noqa
+            ck.fail("tie:history-plan", "%s: the fault-free runs do not have the expected shape: %s: %s" % (kind, type(e).__name__, e), {"kind": kind})
+            continue
+        nmemo = {}
+
+        def count(op1, op2):
+            if (op1, op2) not in nmemo:
+                res, _, _ = execute_session(kind, [op1, op2], ["", ""], ["", ""])
+                nmemo[(op1, op2)] = len(res[1]["frames"])
+            return nmemo[(op1, op2)]
+
+        cases = []
+        for op1 in LITE_ORACLE:
+            for op2 in LITE_ORACLE:
+                n = count(op1, op2)
+                if n == 0:
+                    continue
+                tied = op1 in LITE_T12 and op2 in LITE_T12
+                stateful = op2 in ("auth0", "auth", "protectpw")
+                if ck.thorough and tied and (op2 != "dump"):
+                    pos, third = list(range(n)), LITE_T3
+                    scripts = burst_scripts(n, rng, pos)
+                elif stateful:
+                    # the operations that change the session: every position, every class, bursts below and above the budget
+                    pos = list(range(n)) if n <= 6 else sorted(set([0, 1, n - 1] + rng.sample(range(n), 3)))
+                    scripts = burst_scripts(n, rng, pos, bursts=(1, 3) if not ck.thorough else (1, 2, 3, 4), extra=ck.thorough)
+                    third = (LITE_T3 if tied else LITE_ORACLE)
+                    if not ck.thorough:
+                        third = rng.sample(third, 2)
+                else:
+                    pos = sorted(set([0, n - 1, rng.randrange(n)]))
+                    scripts = burst_scripts(n, rng, pos, bursts=(3,), letters=rng.sample("txpTXP", 2 if not ck.thorough else 4), extra=False)
+                    scripts.append("a" * rng.randrange(n) + rng.choice("tx") * rng.choice((1, 2, 4)))
+                    third = rng.sample(LITE_T3 if tied else LITE_ORACLE, 2 if not ck.thorough else 4)
+                    if not ck.thorough and not tied and rng.random() < 0.5:
+                        continue
+                for sc in scripts:
+                    for op3 in third:
+                        cases.append(((op1, op2, op3), sc, tied))
+        for ops, sc, tied in cases:
+            scripts = ["", sc, ""]
+            replay = {"kind": kind, "ops": list(ops), "scripts": scripts}
+            try:
+                res, mem, _ = execute_session(kind, ops, scripts, ["", "", ""], probe=lite_obj)
+            except Exception as e:  # noqa
+                ck.fail(harness_key(e, "t3", "history"), "%s history %s scripts %s: %s: %s" % (kind, " -> ".join(ops), scripts, type(e).__name__, e), replay)
+                continue
+            replay["outcomes"] = [r["out"] for r in res]
+            replay["log"] = " / ".join(show_log(r["invs"]) for r in res)
+            replay["object"] = [r["obj"] for r in res]
+            what = "%s history %s, fault scripts %s: " % (kind, " -> ".join(ops), scripts)
+            try:
+                for i, (op, r) in enumerate(zip(ops, res)):
+                    w = what + "operation %d (%s) " % (i + 1, op)
+                    oracle_outcome(ck, kind, op, scripts[i], r["out"], r["invs"], w, replay)
+                    oracle_calls(ck, kind, op, r["invs"], r["invraw"], 0, w, replay)
+                    ob = r["obj"]
+                    if (ob[3] == "1" or ob[4] == "1") and ob[1] == "0":
+                        state_fails.append(("lite-mac-accessor-without-session-key", w + "leaves read_with_mac / write_with_mac installed as NDEF "
+                                            "service accessor although the tag object has no session key (object state %s)" % ob, replay))
+                    if i == 2 and op not in ("auth0", "auth", "protectpw", "format", "formatw", "protect", "wrsvc") and \
+                            res[1]["out"].startswith("exc ") and r["out"].startswith("exc TagCommandError(") and \
+                            int(r["out"][20:-1]) <= 0:
+                        # the link is healthy again: a link error code has no cause
+                        ck.fail("link-error-on-healthy-link", w + "ends with %s although every command was answered" % r["out"][4:], replay)
+            except Exception as e:  # noqa
+                ck.fail(harness_key(e, "t3", "history"), what + "%s: %s" % (type(e).__name__, e), replay)
+                continue
+            if not tied or ops[2] not in LITE_T3:
+                ck.case(("history", kind, ops, sc), True, "history-oracle:%s" % kind)
+                continue
+            script = "".join(r["used"] for r in res)
+            reqs.append("hist %s 1 %d %s %s %s" % (cfg, 1 if kind == "lites" else 0, script or "-", lc.enc, " ".join(lc.token(o) for o in ops)))
+            lines = ["%s # %s # %s # %s # %s" % (r["out"], show_log(r["invs"]), ",".join(applied_tokens(kind, r["applied"])) or "-", r["flags"], r["obj"])
+                     for r in res]
+            reals.append(" || ".join(lines + ["end # " + res[-1]["flags"]]))
+            meta.append((kind, ops, sc))
+    for key, what, replay in state_fails[:20]:
+        ck.fail(key, what, replay)
+    replies = model.ask_many(reqs)
+    bad = 0
+    for (kind, ops, sc), req, real, rep in zip(meta, reqs, reals, replies):
+        ck.case(("history", kind, ops, sc), True, "history:%s:%s" % (kind, ops[1]),
+                sample={"kind": kind, "ops": list(ops), "script": sc, "real": real[:240]})
+        if real != rep:
+            bad += 1
+            ck.fail("tie:history-model", "%s %s script '%s': real %s | model %s" % (kind, "+".join(ops), sc, real[:500], rep[:500]),
+                    {"kind": kind, "ops": list(ops), "script": sc, "request": req, "real": real, "model": rep})
+    ck.tie("history-model", len(reqs), bad, exhaustive=False)
+
 
 
 def harness_key(e, fam, op):
@@ -1246,6 +1520,14 @@ def run(ck):
         ck.fail("tie:session-aborted", "the session run could not be completed: %s: %s (%s)" % (
             type(e).__name__, e, "; ".join("%s:%d" % (f.filename.split("/")[-1], f.lineno) for f in tb[-4:])), {})
 
+    try:
+        run_lite_histories(ck, model, cfg, rng)
+    except Exception as e:  # noqa
+        import traceback
+        tb = traceback.extract_tb(e.__traceback__)
+        ck.fail("tie:history-aborted", "the history run could not be completed: %s: %s (%s)" % (
+            type(e).__name__, e, "; ".join("%s:%d" % (f.filename.split("/")[-1], f.lineno) for f in tb[-4:])), {})
+
     # activation under faults (tag/__init__.py:444-461): a tag object or None, never an exception
     import nfc.tag
     for kind in rs.KINDS:
@@ -1289,13 +1571,20 @@ def run(ck):
                "executed the command x burst 1..4, unknown CommunicationError classes, cut Type 3 answers, pairs and triples of faults at "
                "different positions, random mixed scripts; a failing clf.sense() where an operation re-activates the tag; sessions of 2-3 "
                "operations on one tag object (first one with a persisting error of each class at first/last/sampled positions, the next one "
-               "with a transient fault); non-trivial = the script contains at least one fault or a failing sense")
+               "with a transient fault); histories (op1 fault-free, op2 with a burst at command k, op3 on a healthy link) on one tag "
+               "object: FeliCa Lite / Lite-S over {ndef, has_changed, authenticate right/wrong key, presence, service read, dump} x the "
+               "same x {+ write, service write, format, protect} - quick: every position x class x burst 1/3 for op2 = authenticate, "
+               "sampled otherwise; thorough: every (op1, op2 != dump, position, class, lost command/answer, burst 1..4, op3) - compared "
+               "with the object model state by state, format+wipe / protect with password in any place judged by the oracle; "
+               "other classes: sampled (op1, op2, position, class, op3) through the session comparison; "
+               "non-trivial = the script contains at least one fault or a failing sense")
     ck.assumptions += [
         "which commands an operation needs (TLV walk, block lists, APDU sequence) is taken from the fault-free run of the real code on the simulated tag (for sessions: from the fault-free run with and without a cached NDEF object); that logic is the subject of C01-C03/C08/C12",
         "the simulated tags answer a delivered command deterministically (same command, same kind of answer; FeliCa Lite-S write with MAC: accepted once)",
         "ISO-DEP: single-block commands without S(WTX); chaining and waiting time extension are covered by C12",
         "a persisting protocol error on ISO-DEP and any error of the unacknowledged second SECTOR SELECT frame are final by design (not retried)",
         "a second SECTOR SELECT frame that is lost while the reader sees the timeout it takes for the acknowledge leaves tag and tag object in different sectors (inherent in the Type 2 Tag protocol): such runs are judged by the oracle only, wrong data / a write into the other sector are not counted against the code",
+        "FeliCa Lite / Lite-S histories: the command sequences of every operation in the two accessor states (without MAC / after a successful authenticate) are taken from fault-free runs; which of them an operation uses is decided by the model's own object state",
         "sessions are compared with the model up to the first operation whose command sequence depends on tag content that an earlier operation of the session may have changed; the oracle judges all of them",
     ]
     ck.trusted += ["harness/sims/retry_sims.py (tag simulators, fault-injecting frontend)", "lean/Drv/C16.lean (line protocol)"]
